@@ -1,4 +1,6 @@
 """C15 - the NULL-dereference check flags exactly the unchecked flows of return values."""
+import os
+
 import core
 from core import Report
 from common import TRUSTED, first_with
@@ -23,7 +25,7 @@ def check(seed, tier):
     rep = Report("C15", seed, tier)
     core.build_harness()
     meta = core.gen("C15", seed, tier, shards=8)
-    core.validate_traces(rep, TRACE_SPEC, meta["files"], parallel=4 if tier == "quick" else 8, timeout=3600)
+    core.validate_traces(rep, TRACE_SPEC, meta["files"], parallel=int(os.environ.get("VERIF_PAR", 4 if tier == "quick" else 8)), timeout=3600)
 
     def mutate(evs):
         # un-report one reported source call: the spec's Warn is TRUE for it (the event was accepted)
